@@ -1,5 +1,6 @@
 import DriverLib.Chain
 import NotationCore.Model.Jws
+import NotationCore.Model.Cose
 /-! driver handlers: envelope read side (JWS) -/
 namespace DriverLib
 open Lean NotationCore NotationCore.Base
@@ -87,5 +88,48 @@ def handleJwsRead (j : Json) : E Json := do
   let rawEmpty ← fldBool j "rawEmpty"
   pure (jobj [("verify", outJson (wrapRead rawEmpty ci (Jws.verify e))),
               ("content", outJson (wrapRead rawEmpty ci (Jws.content e)))])
+
+end DriverLib
+
+namespace DriverLib
+open Lean NotationCore NotationCore.Base
+
+def labelOf (j : Json) : E Cose.Label :=
+  match j with
+  | .str s => pure (.text s)
+  | v => do pure (.int (← v.getInt?))
+
+def cvalOf (j : Json) : E Cose.CVal := do
+  match (← fldStr j "t") with
+  | "int" => pure (.int (← fldInt j "i"))
+  | "text" => pure (.text (← fldStr j "s"))
+  | "time" => pure (.time (← fldTime j "time") (← fldNat j "rawTag"))
+  | "labels" => pure (.labels (← fldList j "l" labelOf))
+  | _ => pure .other
+
+def coseEntryOf (j : Json) : E Cose.Entry := do
+  pure { label := ← labelOf (← fld j "label"), val := ← cvalOf (← fld j "val"), tok := ← fldStr j "tok" }
+
+def x5ElemOf (j : Json) : E Cose.X5Elem :=
+  match j with
+  | .str "notBytes" => pure .notBytes
+  | .null => pure (.bytes none)
+  | v => do pure (.bytes (some (← v.getNat?)))
+
+def coseEnvOf (j : Json) : E Cose.Env := do
+  let x5c ← match fldOpt j "x5c" with
+    | none => pure none
+    | some v => do pure (some (← arrMap (← v.getArr?) x5ElemOf))
+  pure { prot := ← fldList j "prot" coseEntryOf, x5c, leafKey := ← keyOf (← fld j "leafKey"),
+         payloadNil := ← fldBool j "payloadNil", payload := ← fldStr j "payload", payloadLen := ← fldNat j "payloadLen",
+         sigLen := ← fldNat j "sigLen", sigok := ← fldBool j "sigok", agent := ← fldStr j "agent", tst := ← fldStr j "tst" }
+
+/-- in: {env:{…}, chain:{certs,sig,sigSelf}, rawEmpty}; out: {verify:…, content:…} -/
+def handleCoseRead (j : Json) : E Json := do
+  let e ← coseEnvOf (← fld j "env")
+  let ci ← chainInfoOf (← fld j "chain")
+  let rawEmpty ← fldBool j "rawEmpty"
+  pure (jobj [("verify", outJson (wrapRead rawEmpty ci (Cose.verify e))),
+              ("content", outJson (wrapRead rawEmpty ci (Cose.content e)))])
 
 end DriverLib
